@@ -106,7 +106,7 @@ func checkCompositeLiteral(
 	}
 
 	// Check if we're in one of the allowed constructors
-	if constructors.Match(pkgPath, currentFunction, typeName) {
+	if pass.Pkg.Path() == pkgPath && constructors.Match(pkgPath, currentFunction, typeName) {
 		return nil
 	}
 
@@ -166,7 +166,7 @@ func checkNewCall(
 	}
 
 	// Check if we're in one of the allowed constructors
-	if constructors.Match(pkgPath, currentFunction, typeName) {
+	if pass.Pkg.Path() == pkgPath && constructors.Match(pkgPath, currentFunction, typeName) {
 		return nil
 	}
 
@@ -238,7 +238,7 @@ func checkVarDeclaration(
 			}
 
 			// Check if we're in one of the allowed constructors
-			if constructors.Match(pkgPath, currentFunction, typeName) {
+			if pass.Pkg.Path() == pkgPath && constructors.Match(pkgPath, currentFunction, typeName) {
 				continue
 			}
 
